@@ -161,3 +161,12 @@ int f(int a, int c) { if (a) { if (c) { } else { } int t = a; t = t + 1; g = t; 
 P("empty_else_chain", "f", """
 int f(int a, int b) { int r = a; if (a > 0) { if (b > 0) { } } else { if (b < 0) { } else { } r = b; } return r; }
 """)
+P("store_extcall_load", "f", """
+int g;
+void ext2(int, int);
+int f(int a) { g = a; ext2(a, 1); int t = g; g = t + 1; ext2(t, 2); return g; }
+""", ext=("ext2",))
+P("local_escapes_to_ext", "f", """
+void ext3(int *);
+int f(int a) { int x = a; ext3(&x); int y = x; x = y + 1; ext3(&x); return x + y; }
+""", ext=("ext3",))
